@@ -61,17 +61,18 @@ CONTRACT(PRE___daisy_add_w(d, n), POST___daisy_add_w(RV, d, n));
 	(V_YEAR((int)(y)) && (w) >= -150000 && (w) <= 150000 && (d) >= 1 && (d) <= 7 && (hang) == S_HANG((int)(y)) && \
 	 IN_RANGE(S_ISOMON1((int)(y)) + 7 * ((w) - 1) + ((int)(d) - 1)))
 #define POST___ywd_fixup_w(ret, y, w, d, hang) \
-	(V_YWD(ret) && (ret).w == (d) && S_ISOMON1((int)(ret).y) + 7 * ((int)(ret).c - 1) == S_ISOMON1((int)(y)) + 7 * ((w) - 1))
+	(V_YWD0(ret) && (ret).w == (d) && S_ISOMON1((int)(ret).y) + 7 * ((int)(ret).c - 1) == S_ISOMON1((int)(y)) + 7 * ((w) - 1))
 static dt_ywd_t __ywd_fixup_w(unsigned int y, signed int w, dt_dow_t d, int hang)
 CONTRACT(PRE___ywd_fixup_w(y, w, d, hang), POST___ywd_fixup_w(RV, y, w, d, hang));
 
 /* absolute day number of an ISO week date by its week-1 Monday (lemma L_ywd: equals A_YWD) */
-#define PRE___ywd_add_w(d, n) (V_YWD(d) && (n) >= -140000 && (n) <= 140000 && IN_RANGE(N_YWD(d) + 7 * (n)))
-#define POST___ywd_add_w(ret, d, n) (V_YWD(ret) && N_YWD(ret) == N_YWD(d) + 7 * (n))
+#define PRE___ywd_add_w(d, n) (V_YWD0(d) && (n) >= -145000 && (n) <= 145000 && IN_RANGE(N_YWD(d) + 7 * (n)))
+/* (the result's day number is in 1..911280 by the precondition; V_YWD0 = ISO-valid with canonical hang) */
+#define POST___ywd_add_w(ret, d, n) (V_YWD0(ret) && N_YWD(ret) == N_YWD(d) + 7 * (n))
 static dt_ywd_t __ywd_add_w(dt_ywd_t d, int n)
 CONTRACT(PRE___ywd_add_w(d, n), POST___ywd_add_w(RV, d, n));
-#define PRE___ywd_add_d(d, n) (V_YWD(d) && N_OK(n) && IN_RANGE(N_YWD(d) + (n)))
-#define POST___ywd_add_d(ret, d, n) (V_YWD(ret) && N_YWD(ret) == N_YWD(d) + (n))
+#define PRE___ywd_add_d(d, n) (V_YWD0(d) && N_OK(n) && IN_RANGE(N_YWD(d) + (n)))
+#define POST___ywd_add_d(ret, d, n) (V_YWD0(ret) && N_YWD(ret) == N_YWD(d) + (n))
 static dt_ywd_t __ywd_add_d(dt_ywd_t d, int n)
 CONTRACT(PRE___ywd_add_d(d, n), POST___ywd_add_d(RV, d, n));
 
